@@ -329,7 +329,7 @@ func (b *V2) Read(c string, q *ReadArgs) *Resp {
 		}
 		if q.Kind == "query" {
 			out, err := b.cs[c].Query(bg, &dynamodb.QueryInput{TableName: aws.String(q.T), IndexName: q.Index,
-				KeyConditionExpression: aws.String(q.Kc), FilterExpression: q.Filter, ExpressionAttributeNames: v2Names(q.Names),
+				KeyConditionExpression: aws.String(q.Kc), FilterExpression: q.Filter, ProjectionExpression: q.Proj, ExpressionAttributeNames: v2Names(q.Names),
 				ExpressionAttributeValues: v2Values(q.Values), ScanIndexForward: q.Fwd, Limit: lim, ExclusiveStartKey: esk})
 			r := b.errResp(err)
 			if err == nil && out != nil {
@@ -340,7 +340,7 @@ func (b *V2) Read(c string, q *ReadArgs) *Resp {
 			return r
 		}
 		out, err := b.cs[c].Scan(bg, &dynamodb.ScanInput{TableName: aws.String(q.T), IndexName: q.Index,
-			FilterExpression: q.Filter, ExpressionAttributeNames: v2Names(q.Names),
+			FilterExpression: q.Filter, ProjectionExpression: q.Proj, ExpressionAttributeNames: v2Names(q.Names),
 			ExpressionAttributeValues: v2Values(q.Values), Limit: lim, ExclusiveStartKey: esk})
 		r := b.errResp(err)
 		if err == nil && out != nil {
